@@ -41,6 +41,54 @@ fn verif_replay() {
     let path = match std::env::var("VERIF_REPLAY") { Ok(p) => p, Err(_) => return };
     let case: serde_json::Value = serde_json::from_str(&std::fs::read_to_string(path).unwrap()).unwrap();
     let a = case["args"].clone();
+    if case["driver"].as_str() == Some("quic_server_cert_verification") {
+        // the QUIC connector's side: a client configuration built by create_quic_client with / without `insecure` and with no ca, the
+        // test CA, or another CA file (the leaf itself: not the issuer) dials a server whose certificate was issued by the test CA
+        let insecure = a["insecure"].as_bool().unwrap_or(false);
+        let ca_kind = a["ca"].as_str().unwrap_or("none").to_string();
+        let dir = std::env::temp_dir().join(format!("verif-quic-c-{}", std::process::id()));
+        std::fs::create_dir_all(&dir).unwrap();
+        let (ca, crt, key) = (dir.join("ca.pem"), dir.join("leaf.pem"), dir.join("leaf.key"));
+        std::fs::write(&ca, CA_PEM).unwrap();
+        std::fs::write(&crt, LEAF_PEM).unwrap();
+        std::fs::write(&key, LEAF_KEY).unwrap();
+        let rt = tokio::runtime::Builder::new_multi_thread().worker_threads(2).enable_all().build().unwrap();
+        let ck2 = ca_kind.clone();
+        let out = rt.block_on(async move {
+            let mut tls: TlsServerConfig = serde_yaml::from_str(&format!("cert: {}\nkey: {}\n", crt.display(), key.display())).unwrap();
+            tls.init().unwrap();
+            let server = quinn::Endpoint::server(create_quic_server(&tls).unwrap(), "127.0.0.1:0".parse().unwrap()).unwrap();
+            let addr = server.local_addr().unwrap();
+            let srv = tokio::spawn(async move {
+                if let Some(c) = server.accept().await { if let Ok(conn) = c.await { if let Ok((mut tx, mut rx)) = conn.accept_bi().await {
+                    let mut buf = [0u8; 4];
+                    if rx.read_exact(&mut buf).await.is_ok() { let _ = tx.write_all(&buf).await; let _ = tx.finish().await; }
+                    tokio::time::sleep(std::time::Duration::from_millis(300)).await;
+                } } }
+            });
+            let ca_line = match ck2.as_str() { "test-ca" => format!("ca: {}\n", ca.display()), "other" => format!("ca: {}\n", crt.display()), _ => String::new() };
+            let ctls: TlsClientConfig = serde_yaml::from_str(&format!("insecure: {}\n{}", insecure, ca_line)).unwrap();
+            let ccfg = match create_quic_client(&ctls, false) { Ok(c) => c, Err(e) => return serde_json::json!({"panicked": false, "exchanged": false, "client_config_error": e.to_string()}) };
+            let mut client = quinn::Endpoint::client("127.0.0.1:0".parse().unwrap()).unwrap();
+            client.set_default_client_config(ccfg);
+            let exchanged = tokio::time::timeout(std::time::Duration::from_secs(3), async {
+                let conn = client.connect(addr, "localhost").ok()?.await.ok()?;
+                let (mut tx, mut rx) = conn.open_bi().await.ok()?;
+                tx.write_all(b"ping").await.ok()?;
+                let mut buf = [0u8; 4];
+                rx.read_exact(&mut buf).await.ok()?;
+                Some(&buf == b"ping")
+            }).await.ok().flatten().unwrap_or(false);
+            srv.abort();
+            serde_json::json!({"panicked": false, "exchanged": exchanged})
+        });
+        let _ = std::fs::remove_dir_all(&dir);
+        let mut out = out;
+        out["insecure"] = serde_json::json!(insecure);
+        out["ca"] = serde_json::json!(ca_kind);
+        println!("VERIF-OUTCOME {}", out);
+        return;
+    }
     let policy = a["policy"].as_str().unwrap_or("required").to_string();
     let client_cert = a["client_cert"].as_str().unwrap_or("none").to_string();
     let dir = std::env::temp_dir().join(format!("verif-quic-{}", std::process::id()));
